@@ -83,7 +83,7 @@ class G:
         r = self.r
         k = kind or r.choice(self.leaves)
         if k == "Count":
-            if self.counts_tsq and r.random() < 0.15:
+            if self.counts_tsq and r.random() < (0.15 if self.counts_tsq is True else float(self.counts_tsq)):
                 return {"k": "Count", "tr": "sq"}
             return {"k": "Count"}
         if k == "Bag":
@@ -131,7 +131,10 @@ class G:
             return {"k": "CentrallyBin", "centers": cs, "q": self.q(self.numexpr()),
                     "value": self.spec(d), "nan": self.flow(d)}
         if kind in ("IrregularlyBin", "Stack"):
-            return {"k": kind, "edges": self.edges(r.randint(1, 4)), "q": self.q(self.numexpr()),
+            es = self.edges(r.randint(1, 4))
+            if kind == "Stack" and r.random() < 0.3:
+                r.shuffle(es)          # Stack keeps its thresholds in the order given
+            return {"k": kind, "edges": es, "q": self.q(self.numexpr()),
                     "value": self.spec(d), "nan": self.flow(d)}
         if kind == "Fraction":
             return {"k": "Fraction", "q": self.q(self.boolexpr()), "value": self.spec(d)}
